@@ -279,31 +279,48 @@ class Rec:
             for x in fl.origins(l):
                 if x[0] == "call" and last_seg(x[1]) in ("resolve", "resolve_flags", "get") and ("Resolve" in x[1] or "Resolve" in (x[3].get("trait") or "")):
                     from_resolve = True
-        if not from_resolve:
-            # owned descent: every non-resolver argument derives from the body's own parameters
-            return True
-        # the call must sit in the arm of a switch on the discriminant of a Primitive whose value is Reference
-        vi = None
-        for vidx, v in enumerate(self.f.adts.get("primitive::Primitive", {}).get("variants", [])):
-            if v["name"] == "Reference":
-                vi = vidx
-        ok = False
-        for i, bbk in enumerate(b["blocks"]):
-            tt = bbk["term"]
-            if tt["k"] != "switch" or not cfg.dominates(i, bb):
-                continue
-            dl = F.op_local(tt["discr"])
-            for s in bbk["stmts"]:
-                if s[0] == "assign" and s[1] == [dl] and s[2][0] == "discr":
-                    ty = b["locals"][s[2][1][0]]
-                    if "primitive::Primitive" in ty["s"]:
+        prim_variants = [v["name"] for v in self.f.adts.get("primitive::Primitive", {}).get("variants", [])]
+
+        def arm_of(variant_name, target_bb):
+            """target_bb lies in the arm `variant_name` (and in no other arm) of a switch on a Primitive that dominates it"""
+            vi = prim_variants.index(variant_name) if variant_name in prim_variants else None
+            for i, bbk in enumerate(b["blocks"]):
+                tt = bbk["term"]
+                if tt["k"] != "switch" or not cfg.dominates(i, target_bb):
+                    continue
+                dl = F.op_local(tt["discr"])
+                for s in bbk["stmts"]:
+                    if s[0] == "assign" and s[1] == [dl] and s[2][0] == "discr" and "primitive::Primitive" in b["locals"][s[2][1][0]]["s"]:
                         arms = {a[0]: a[1] for a in tt["arms"]}
                         tgt = arms.get(vi)
-                        if tgt is not None and (tgt == bb or bb in cfg.reachable_from(tgt, avoid={i})):
+                        if tgt is not None and (tgt == target_bb or target_bb in cfg.reachable_from(tgt, avoid={i})):
                             others = [x for v2, x in arms.items() if v2 != vi] + [tt["otherwise"]]
-                            if not any(o is not None and o != tgt and bb in cfg.reachable_from(o, avoid={i}) for o in others):
-                                ok = True
-        if ok:
+                            if not any(o is not None and o != tgt and target_bb in cfg.reachable_from(o, avoid={i}) for o in others):
+                                return True
+            return False
+        if not from_resolve:
+            carriers = ("primitive::Primitive", "primitive::Dictionary", "primitive::PdfStream")
+            prim_args = [k2 for k2, ty in enumerate(t["arg_tys"]) if any(c in ty["s"] for c in carriers)]
+            if not prim_args:
+                # descent over the typed model: the re-entered call works on a part of the own (already loaded, finite) value
+                return True
+            # the argument is a primitive.  This body follows references (the caller established that), so a part of the own argument -
+            # which may itself be a reference - is resolved by the re-entered call: `<< /D 5 0 R >>` as object 5 walks in a circle.
+            # Bounded only if the argument is built here as a definite non-reference variant whose arm does not re-enter.
+            for k2 in prim_args:
+                l = F.op_local(t["args"][k2])
+                ds = fl.defs.get(l, []) if l is not None else []
+                aggs = [d for d in ds if d[0] == "assign" and d[2][0] == "aggregate" and d[2][1].get("adt") == "primitive::Primitive"]
+                vs = {d[2][1].get("variant") for d in aggs}
+                if len(vs) != 1 or len(aggs) != len(ds) or "Reference" in vs:
+                    return "%s resolves a reference and re-enters itself with a part of the resolved value (which may be a reference again)" % bid
+                v = vs.pop()
+                selfcalls = [e2[2] for e2 in node["edges"] if e2[0] == k and e2[3] == bid]
+                if any(arm_of(v, sc) for sc in selfcalls):
+                    return "%s re-enters itself with a %s, whose arm re-enters again" % (bid, v)
+            return True
+        # the call must sit in the arm of a switch on the discriminant of a Primitive whose value is Reference
+        if arm_of("Reference", bb):
             return True
         return "%s re-enters itself with a resolved value outside a `Primitive::Reference` arm" % bid
 
